@@ -16,7 +16,7 @@ RULE = ("seeded store histories biased to private objects through every storing 
         "The simulator scans the written file after EVERY simulated write(2) for every registered private byte-string value (unique, >= 12 bytes) and for the per-token master key and mask (known through "
         "the RNG seam); at disk dumps the independent decoder must open the master key with the SO PIN and with the user PIN (same key), decrypt every private value to what the API returned, and all IVs on disk "
         "must be pairwise distinct; every file/directory creation is checked against the configured umask. Distinct+non-trivial: (storing path, object kind, umask, PIN-history class).")
-PROBES = ["db_backend_runs", "reconfigured", "writes_scanned", "private_values_registered", "masterkey_registered", "disk_decoded", "ivs_compared", "modes_checked", "pin_changed_then_decoded", "reinit_then_decoded", "upgrade_copy", "private_value_decrypted", "umask_nondefault"]
+PROBES = ["db_backend_runs", "reconfigured", "mthread_runs", "writes_scanned", "private_values_registered", "masterkey_registered", "disk_decoded", "ivs_compared", "modes_checked", "pin_changed_then_decoded", "reinit_then_decoded", "upgrade_copy", "private_value_decrypted", "umask_nondefault"]
 DEATH_IS_VIOLATION = ()
 
 W = {"open": 3, "login": 4, "logout": 1, "create": 26, "gen": 8, "genpair": 3, "unwrap": 5, "derive": 5, "copy": 6, "upgrade": 6, "setattr": 14, "destroy": 5, "restart": 2, "reconf": 2, "disk": 7, "setpin": 5, "reinit": 1.5}
@@ -142,7 +142,54 @@ class GW(StoreW):
         self.emit({"act": "disk", "data": True}, tid)
         return True
 
+def gen_mthread(seed, tier, index):
+    """two threads of one process (locking enabled): one stores PRIVATE token keys (C_UnwrapKey of a blob whose plaintext the harness knows, C_CreateObject of
+    known values) while the other logs the user out and in again. A call that loses the race may fail or store nothing - the key bytes must not reach the disk
+    in the clear. Only the disk monitor is judged in these runs (the sequential model does not apply)."""
+    from gen import G
+    import mechs
+    g = G(seed, "C06", profile="mthread"); r = g.r
+    g.knobs["policy"] = "park" if index % 40 != 7 else "io"; g.knobs["switch_p"] = r.choice([0.05, 0.1, 0.2]); g.knobs["short_io"] = False
+    g.task(0, 1); g.task(1, 1)
+    so = g.pin(); up = g.pin()
+    g.emit({"act": "start", "locking": "callbacks"}, 0)
+    tok = g.setup_token(0, so_pin=so, upin=up)
+    sa = g.new_sess(); sb = g.new_sess()
+    g.emit({"f": "C_OpenSession", "slot": tok, "flags": RW, "out": sa}, 0); g.emit({"f": "C_OpenSession", "slot": tok, "flags": RW, "out": sb}, 0)
+    g.emit({"f": "C_Login", "s": sa, "user": K.CKU_USER, "pin": up.hex()}, 0)
+    wk = g.new_obj(); wt, _ = objs.make("aes", wk, r, token=True, private=False, flags={"sensitive": False, "extractable": True, "wrap": True, "unwrap": True})
+    g.emit({"f": "C_CreateObject", "s": sa, "tmpl": wt, "out": wk}, 0)
+    secrets = []; blobs = []
+    for i in range(r.choice([1, 2])):
+        k = g.new_obj(); kt, info = objs.make("aes", k, r, token=False, private=False, flags={"sensitive": False, "extractable": True})
+        val = [e for e in kt if e[0] == K.CKA_VALUE][0][2]; secrets.append(val)
+        g.emit({"f": "C_CreateObject", "s": sa, "tmpl": kt, "out": k}, 0)
+        g.emit({"f": "C_WrapKey", "s": sa, "mech": mechs.simple(K.CKM_AES_KEY_WRAP), "wkey": wk, "key": k, "outcap": 256, "save": "w%d" % i}, 0); blobs.append("w%d" % i)
+    for t in (0, 1): g.emit({"act": "barrier"}, t)
+    for i in range(r.choice([4, 6, 8])):
+        new = g.new_obj()
+        if r.random() < 0.7:
+            tm = [A_ulong(K.CKA_CLASS, K.CKO_SECRET_KEY), A_ulong(K.CKA_KEY_TYPE, K.CKK_AES), A_bool(K.CKA_TOKEN, True), A_bool(K.CKA_PRIVATE, True), A_bytes(K.CKA_LABEL, objs.label(new)), A_bool(K.CKA_SENSITIVE, False), A_bool(K.CKA_EXTRACTABLE, True)]
+            g.emit({"f": "C_UnwrapKey", "s": sa, "mech": mechs.simple(K.CKM_AES_KEY_WRAP), "ukey": wk, "in": {"from": r.choice(blobs)}, "tmpl": tm, "out": new, "park_me": True}, 0, ok=False)
+        else:
+            v = objs.rnd(r, r.choice([24, 40])); secrets.append(v.hex())
+            g.emit({"f": "C_CreateObject", "s": sa, "tmpl": [A_ulong(K.CKA_CLASS, K.CKO_DATA), A_bool(K.CKA_TOKEN, True), A_bool(K.CKA_PRIVATE, True), A_bytes(K.CKA_LABEL, objs.label(new)), A_bytes(K.CKA_VALUE, v)], "out": new, "park_me": True}, 0, ok=False)
+        if r.random() < 0.5: g.emit({"f": "C_Login", "s": sa, "user": K.CKU_USER, "pin": up.hex()}, 0, ok=False)
+    for i in range(r.choice([2, 3, 4])):
+        g.emit({"f": "C_Logout", "s": sb}, 1, ok=False); g.emit({"f": "C_Login", "s": sb, "user": K.CKU_USER, "pin": up.hex()}, 1, ok=False)
+    for t in (0, 1): g.emit({"act": "barrier"}, t)
+    g.emit({"act": "disk", "data": True}, 0)
+    g.extra["stratum"] = "mthread"
+    return g.plan(disk_secrets=secrets)
+
+def prepare(plan, z):
+    if plan.get("stratum") == "mthread" and plan["knobs"].get("policy") == "park" and plan["knobs"].get("parks") is None:
+        from props import c18
+        return c18.prepare_park(plan, z)
+    return plan
+
 def gen(seed, tier, index):
+    if index % 10 == 7: return gen_mthread(seed, tier, index)
     g = GW(seed, "C06", big=(index % 7 == 0))
     r = g.r
     # softhsm2.conf(5): the value is octal - with or without a leading zero
@@ -191,6 +238,14 @@ def check(plan, r):
                 if not (pv and pv[0][2] == "01"): return False
                 fam.add(op.get("out"))
         return True
+    if plan.get("stratum") == "mthread":
+        st("mthread_runs"); st("mthread_switches", sum(((r.result or {}).get("switches") or {}).values()))
+        for e in hist.mons(r, "plaintext_on_disk"):
+            viols.append(_v("C06.plaintext_on_disk", "after a write of call #%s (thread %s) the file %s contains %s in the clear - another thread logged the user out while the object was being stored" % (e.get("op"), e.get("t"), e["d"]["path"].split("/")[-1], describe_secret(e["d"]["secret"])),
+                            call=opname_at(plan, e), op=e.get("op"), secret="plan", threads=True))
+        for v in viols: v["backend"] = "file"
+        r.aux["c06"] = ({"mthread|%s|sw%d" % (plan["knobs"].get("policy"), min(stats.get("mthread_switches", 0), 20))}, stats)
+        return viols[:3]
     for e in hist.mons(r, "plaintext_on_disk"):
         if not upgrade_intact(e["d"].get("secret", "")): continue
         viols.append(_v("C06.plaintext_on_disk", "after a write of call #%s the file %s contains %s in the clear" % (e.get("op"), e["d"]["path"].split("/")[-1], describe_secret(e["d"]["secret"])),
@@ -289,7 +344,7 @@ def opname_at(plan, e):
 
 def cover(plan, r):
     cov, stats = r.aux.get("c06", (set(), {}))
-    return {"keys": sorted(cov), "nontrivial": stats.get("private_value_decrypted", 0) > 0 and stats.get("writes_scanned", 0) > 0, "stats": stats}
+    return {"keys": sorted(cov), "nontrivial": (stats.get("private_value_decrypted", 0) > 0 and stats.get("writes_scanned", 0) > 0) or stats.get("mthread_switches", 0) > 0, "stats": stats}
 
 TECHNIQUE = "deterministic simulation: invariant monitor over the simulated disk after every write(2) (registered plaintexts, master key via the RNG seam, creation modes) plus independent decryption of disk dumps"
 CLAIM = ("Seeded exploration with an always-on disk invariant: because the simulator owns the disk, the content of every file is scanned after each individual write (so also in every state a crash would freeze) "
